@@ -82,7 +82,12 @@ def one_case(case):
                     steps += [{'do': 'rst_storm', 'count': 600, 'connect_tries': 5}]
                 steps += [{'do': 'tls', 'alpn': case['foreign'][0], 'connect_tries': 5} for _ in range(again)]
                 steps += [{'do': 'tls', 'alpn': case['offers'][0], 'connect_tries': 5}]
-            out = C.vtool('alpnclient', [{'target': listen, 'sni': case['want_name'], 'steps': steps, 'seed': case['i']}])
+            import subprocess
+            try:
+                out = C.vtool('alpnclient', [{'target': listen, 'sni': case['want_name'], 'steps': steps, 'seed': case['i']}], timeout=300)
+            except subprocess.TimeoutExpired:
+                res['problems'].append(('infra', 'the TLS client did not finish within 300 s (tacd %s)' % ('running' if t.alive() else 'gone')))
+                return res
             st = out[0]['steps']
             if again:
                 extra = [x for x in st[len(case['offers']) + len(case['foreign']):] if x.get('do') != 'rst_storm']
